@@ -22,8 +22,10 @@ import (
 
 	"verif/gen"
 	"verif/harness/lalclient"
+	"verif/harness/stub"
 	"verif/ref/codecref"
 	"verif/ref/psref"
+	"verif/ref/rtmpref"
 	"verif/ref/rtpref"
 	"verif/ref/rtspref"
 )
@@ -170,4 +172,37 @@ func (in *input) psSend(ts uint32, nal []byte) error {
 // a frame that carries no marker: lal's PS parser holds the newest frame until the next one begins
 func padNal(ts uint32) []byte {
 	return []byte{0x41, 0x9A, e6(ts >> 12), e6(ts >> 6), e6(ts), 0x5B}
+}
+
+// ---- origin that answers play and sends media in ONE write ---------------------------------------------------------
+
+// acceptPlayWithMedia is what an origin with cached headers / a cached GOP does: NetStream.Play.Start and the first
+// media messages leave in a single write, so the puller receives them in the same TCP read as the answer.  It is
+// used only for pull attempts that must NOT attach (a publisher took the stream meanwhile, or relay pull was stopped
+// while the attempt was connecting): every media message carries badPattern and may reach nobody, however much of it
+// lal's pull session had already buffered when the group refused it.
+//
+// All chunks use format-0 headers (as the stub's own writer does), so the stub's writer state is not disturbed.
+func acceptPlayWithMedia(c *stub.Conn) error {
+	w := rtmpref.NewChunkWriter(128)
+	play := rtmpref.Msg{Csid: 5, TypeID: rtmpref.TypeCmdAmf0, StreamID: 1, Payload: rtmpref.EncodeAmf0(
+		rtmpref.Str("onStatus"), rtmpref.Num(0), rtmpref.Null(),
+		rtmpref.Obj(rtmpref.M("level", rtmpref.Str("status")), rtmpref.M("code", rtmpref.Str("NetStream.Play.Start")), rtmpref.M("description", rtmpref.Str("Start live"))))}
+	buf := w.WriteMsg(play, 0)
+	media := []rtmpref.Msg{
+		{Csid: 6, TypeID: rtmpref.TypeVideo, StreamID: 1, Ts: 0, Payload: rtmpVideoSeqHeader()},
+		{Csid: 4, TypeID: rtmpref.TypeAudio, StreamID: 1, Ts: 0, Payload: rtmpAudioSeqHeader()},
+		{Csid: 4, TypeID: rtmpref.TypeAudio, StreamID: 1, Ts: 1, Payload: badAudio},
+		{Csid: 6, TypeID: rtmpref.TypeVideo, StreamID: 1, Ts: 2, Payload: rtmpKeyFrame(idrNal(badPattern))},
+		{Csid: 4, TypeID: rtmpref.TypeAudio, StreamID: 1, Ts: 3, Payload: badAudio},
+		{Csid: 6, TypeID: rtmpref.TypeVideo, StreamID: 1, Ts: 4, Payload: rtmpKeyFrame(idrNal(badPattern))},
+	}
+	for _, m := range media {
+		buf = append(buf, w.WriteMsg(m, 0)...)
+	}
+	if len(buf) > 4000 {
+		lalclient.Harness("play answer with media is %d bytes: it is meant to fit one small read buffer", len(buf))
+	}
+	_, err := c.Conn.Write(buf)
+	return err
 }
